@@ -6,6 +6,7 @@ import (
 	"fmt"
 	"math/big"
 	"net/url"
+	"os"
 	"sort"
 	"strconv"
 	"strings"
@@ -69,6 +70,17 @@ func NewEnv(opts EnvOptions) (*Env, error) {
 		so.SchemaEnforcement = ledgercontroller.SchemaEnforcementStrict
 	}
 	e.St = stack.Open(pg, so)
+	if os.Getenv("VH_DEBUG") != "" {
+		pg.Observer = func(ev pgmodel.StmtEvent) {
+			if ev.Err != "" || os.Getenv("VH_DEBUG") == "2" {
+				sql := ev.SQL
+				if len(sql) > 1200 {
+					sql = sql[:1200]
+				}
+				fmt.Fprintf(os.Stderr, "SQL sess=%d worker=%s err=%s\n    %s\n", ev.Sess, ev.Worker, ev.Err, sql)
+			}
+		}
+	}
 	return e, nil
 }
 
@@ -449,6 +461,8 @@ func (e *Env) Observe(l string) (LedgerObs, error) {
 	obs := LedgerObs{Txs: []TxObs{}, Accts: []AcctObs{}, Logs: []LogObs{}, Vols: []VolB{}, Agg: []AggB{}}
 	moves := e.hasFeature(l, "MOVES_HISTORY", "ON")
 	eff := moves && e.hasFeature(l, "MOVES_HISTORY_POST_COMMIT_EFFECTIVE_VOLUMES", "SYNC")
+	obs.Flags = Flags{Moves: moves, Eff: eff, Hash: e.hasFeature(l, "HASH_LOGS", "SYNC"),
+		AMH: e.hasFeature(l, "ACCOUNT_METADATA_HISTORY", "SYNC"), TMH: e.hasFeature(l, "TRANSACTION_METADATA_HISTORY", "SYNC")}
 	txPath := "/v2/" + l + "/transactions?pageSize=100&expand=volumes"
 	if eff {
 		txPath += "&expand=effectiveVolumes"
